@@ -2,16 +2,17 @@
 # usage: sweep_mut.sh <name> <patch.diff> <ID> [ID...]
 # Runs checks against a scratch copy of /repo with the patch applied (never touches /repo, /verif/evidence or /verif/replay).
 set -u
+VROOT=$(cd "$(dirname "$0")/.." && pwd)
 NAME=$1; PATCH=$2; shift; shift
 W=/tmp/sweep/$NAME
 rm -rf $W; mkdir -p /tmp/sweep
 git -C /repo worktree add --detach -q $W HEAD || exit 2
-( cd $W && git apply "$PATCH" ) || { echo "$NAME: patch does not apply"; git -C /repo worktree remove --force $W; exit 2; }
+( cd $W && git apply "$(cd $VROOT && realpath "$PATCH")" ) || { echo "$NAME: patch does not apply"; git -C /repo worktree remove --force $W; exit 2; }
 mkdir -p $W/_verifout
 for id in "$@"; do
-  out=$(cd /verif && VERIF_REPO=$W VERIF_OUTROOT=$W/_verifout timeout 3000 ./check $id ${TIER:-quick} 2>&1); rc=$?
+  out=$(cd $VROOT && VERIF_REPO=$W VERIF_OUTROOT=$W/_verifout timeout 3000 ./check $id ${TIER:-quick} 2>&1); rc=$?
   keys=$(echo "$out" | grep 'violations_by_key' | sed 's/ *violations_by_key://' | tr -s ' ' | tr '\n' ',' )
   echo "RESULT $NAME $id rc=$rc keys=[$keys] first=$(echo "$out" | grep -m1 -A1 '^VIOLATION' | tail -1 | cut -c1-220)"
 done
 git -C /repo worktree remove --force $W; git -C /repo worktree prune
-rm -f /verif/bin/*._tmp_sweep_${NAME}* /verif/harness/go._tmp_sweep_${NAME}*
+rm -f $VROOT/bin/*._tmp_sweep_${NAME}* $VROOT/harness/go._tmp_sweep_${NAME}*
